@@ -8,6 +8,7 @@ use std::sync::Arc;
 
 use parking_lot::RwLock;
 
+use crate::desc::{is_valid_label_name, is_valid_metric_name};
 use crate::errors::{Error, Result};
 use crate::metrics::Collector;
 use crate::proto;
@@ -244,6 +245,24 @@ impl Registry {
         if let Some(ref namespace) = prefix {
             if namespace.is_empty() {
                 return Err(Error::Msg("empty prefix namespace".to_string()));
+            }
+            // The prefix becomes the beginning of every metric name.
+            if !is_valid_metric_name(namespace) {
+                return Err(Error::Msg(format!(
+                    "'{}' is not a valid prefix namespace",
+                    namespace
+                )));
+            }
+        }
+
+        if let Some(ref labels) = labels {
+            for label_name in labels.keys() {
+                if !is_valid_label_name(label_name) {
+                    return Err(Error::Msg(format!(
+                        "'{}' is not a valid label name",
+                        label_name
+                    )));
+                }
             }
         }
 
